@@ -615,6 +615,47 @@ configs:
   x-cfg: {content: "c ${TAG:-1}"}
 `
 
+// KEY=VALUE attributes in list spelling with every value shape; the environment defines some of the keys
+const corpusKVShapes = `
+services:
+  kv:
+    image: kv
+    build:
+      context: .
+      args: [EMPTY=, BARE, SET=v, "SPACED=a b", "EQ=a=b", UNSET_BARE]
+      labels: [EMPTY=, SET=v, "EQ=a=b"]
+    environment: [EMPTY=, BARE, SET=v, "SPACED=a b", "EQ=a=b", UNSET_BARE]
+    labels: [EMPTY=, SET=v, "EQ=a=b"]
+    annotations: [EMPTY=, SET=v]
+    extra_hosts: ["h1=1.1.1.1", "h2:2.2.2.2"]
+    sysctls: [net.a=1, net.b=]
+  kvmap:
+    image: kvmap
+    build:
+      context: .
+      args: {EMPTY: "", BARE: , SET: v, NUM: 1, BOOL: true}
+    environment: {EMPTY: "", BARE: , SET: v, NUM: 1, BOOL: true, UNSET_BARE: }
+    labels: {EMPTY: "", SET: v, NUM: 1}
+`
+
+// two services share an env file whose value refers to a variable each service defines differently in an earlier file
+const corpusEnvChain = `
+services:
+  a:
+    image: a
+    env_file: [./a.env, ./shared.env]
+  b:
+    image: b
+    env_file:
+      - ./b.env
+      - path: ./shared.env
+        required: false
+  c:
+    image: c
+    env_file: [./shared.env]
+    environment: {HOST: from-c}
+`
+
 const corpusInvalidSchema = `
 services:
   bad: {image: x, ports: {a: b}}
@@ -660,6 +701,8 @@ func CorpusScns() map[string]*Scn {
 		"rich3":         {Files: files("compose.yaml", corpusRich3, "s", "sec", "c", "cfg"), Main: []string{"compose.yaml"}, Env: map[string]string{"CENV": "CANARY-config-env"}},
 		"typed-strings": {Files: files("compose.yaml", corpusTypedStrings), Main: []string{"compose.yaml"}},
 		"odd-names":     {Files: files("compose.yaml", corpusOddNames, "s", "sec"), Main: []string{"compose.yaml"}, Env: map[string]string{"DBPW": "CANARY-dbpw"}},
+		"kv-shapes":     {Files: files("compose.yaml", corpusKVShapes), Main: []string{"compose.yaml"}, Env: map[string]string{"EMPTY": "env-empty", "BARE": "env-bare", "SET": "env-set"}},
+		"env-chain":     {Files: files("compose.yaml", corpusEnvChain, "a.env", "HOST=host-a\n", "b.env", "HOST=host-b\n", "shared.env", "URL=http://${HOST}/\nPLAIN=p\n"), Main: []string{"compose.yaml"}},
 		"profiles":      {Files: files("compose.yaml", corpusProfiles), Main: []string{"compose.yaml"}},
 		"version":       {Files: files("compose.yaml", corpusVersion), Main: []string{"compose.yaml"}},
 		"bad-schema":    {Files: files("compose.yaml", corpusInvalidSchema), Main: []string{"compose.yaml"}},
